@@ -128,8 +128,25 @@ Definition getitem (k : K) (ents : list cent) : result cent := kt_getitem eqb c_
 (* Entry.equals: self.key == other.key and self.val == other.val *)
 Definition equals (a b : cent) : bool := eqb (c_key a) (c_key b) && veq (c_val a) (c_val b).
 
-(* the effect of one iteration of `for action, entity_id in ar:` *)
-Definition iteration (x : label * K) : result acc :=
+(* `l10nent not in skips`: entities define no __eq__, list membership is identity *)
+Definition in_skips (id : Z) (skips : list Z) : bool := existsb (Z.eqb id) skips.
+
+(* the loop over checker.check(refent, l10nent), as far as `skips` goes:
+     if tp == "error" and merge_file is not None and l10nent not in skips:
+         skips.append(l10nent)
+   returns what is appended to [skips] *)
+Fixpoint check_skips (id : Z) (skips : list Z) (fs : list finding) : list Z :=
+  match fs with
+  | [] => []
+  | f :: fs' =>
+      if f_error f && merge && negb (in_skips id skips)
+      then id :: check_skips id (skips ++ [id]) fs'
+      else check_skips id skips fs'
+  end.
+
+(* the effect of one iteration of `for action, entity_id in ar:`;
+   [skips] is the list as it stands when the iteration starts *)
+Definition iteration (skips : list Z) (x : label * K) : result acc :=
   let (action, entity_id) := x in
   match action with
   | Delete =>
@@ -168,10 +185,9 @@ Definition iteration (x : label * K) : result acc :=
            Raise RuntimeError
          else if equals refent l10nent then Ok (mkstats 0 0 0 0 0 0 1 (c_words refent) 0)
          else Ok (mkstats 0 0 0 0 1 (c_words refent) 0 0 0));
-      (* run checks: error entities are skipped when merging, every finding is notified *)
+      (* run checks: an error entity is skipped when merging, once; every finding is notified *)
       let fs := chk refent l10nent in
-      Ok (mkacc counted []
-                (if merge then map (fun _ => c_id l10nent) (filter f_error fs) else [])
+      Ok (mkacc counted [] (check_skips (c_id l10nent) skips fs)
                 (map (fun f => NCheck (f_error f) (f_msg f)) fs))
   end.
 
@@ -179,7 +195,7 @@ Fixpoint run (a : acc) (steps : list (label * K)) : result acc :=
   match steps with
   | [] => Ok a
   | x :: steps' =>
-      match iteration x with
+      match iteration (a_skips a) x with
       | Ok d => run (acc_app a d) steps'
       | Raise t => Raise t
       end
